@@ -9,6 +9,7 @@ import (
 	"sort"
 	"strings"
 	"unicode"
+	"unicode/utf8"
 
 	bs "github.com/danthegoodman1/bloomsearch"
 )
@@ -194,7 +195,11 @@ type modelVerdict struct {
 }
 
 func askMatch(c *ctx, tm tokMode, q *bs.Query, rb []byte, jt string) modelVerdict {
-	texts := leafTexts(rb)
+	return askMatchTexts(c, tm, q, leafTexts(rb), jt)
+}
+
+// askMatchTexts: the tokenizer table and the regex oracle are built over the given leaf texts.
+func askMatchTexts(c *ctx, tm tokMode, q *bs.Query, texts []string, jt string) modelVerdict {
 	var t toks
 	t.add("match")
 	tokTableTok(&t, tm, texts)
@@ -570,7 +575,115 @@ func e2eChecks(c *ctx, which string) {
 				}
 			}
 		}
+		literalQueries(c, r, h, fsEng, ids, rowOf, jts, p, which)
 		os.RemoveAll(fsDir)
 		h.Env.Stop()
+	}
+}
+
+type modelLeaf struct{ path, text string }
+
+// modelLeaves: the text leaves of a stored row according to the Lean walk over an encoding/json parse of the
+// row's bytes - nothing of the implementation's own walker is involved.
+func modelLeaves(c *ctx, jt string) []modelLeaf {
+	f := strings.Fields(c.m.Ask("walk " + jt))
+	var out []modelLeaf
+	i := 1
+	for i+2 < len(f)+1 && i < len(f) {
+		path, kind, tag := unhx(f[i]), f[i+1], f[i+2]
+		i += 3
+		text := ""
+		if tag == "S" {
+			text = unhx(f[i])
+			i++
+		}
+		if kind == "L" && tag == "S" {
+			out = append(out, modelLeaf{path, text})
+		}
+	}
+	return out
+}
+
+// literalQueries: queries written from the stored literal of one leaf of one stored row (its path and text as
+// the MODEL reads them): a token of the text under Token / FieldToken, the anchored quoted text under FieldRegex
+// (as a bare condition root, under And, and as the same pattern on two fields in either order, alone or next to
+// a bloom condition). The model's verdict is computed over the model's own leaf texts; a row the model says
+// matches must be returned (C01) and a returned row must match (C02).
+func literalQueries(c *ctx, r Rng, h *History, fsEng *bs.BloomSearchEngine, ids []int, rowOf map[int][]byte, jts map[int]string, p *pools, which string) {
+	if len(ids) == 0 {
+		return
+	}
+	texts := map[int][]string{}
+	leavesOf := map[int][]modelLeaf{}
+	for _, id := range ids {
+		ls := modelLeaves(c, jts[id])
+		leavesOf[id] = ls
+		for _, l := range ls {
+			texts[id] = append(texts[id], l.text)
+		}
+	}
+	cond := func(f, pat string) bs.RegexExpression {
+		return bs.RegexExpression{ExpressionType: bs.RegexExpressionCondition, Condition: &bs.RegexCondition{Field: f, Pattern: pat}}
+	}
+	for k := 0; k < 10; k++ {
+		id := ids[r.IntN(len(ids))]
+		ls := leavesOf[id]
+		if len(ls) == 0 {
+			continue
+		}
+		// prefer the unusual literals: empty strings and non-plain numbers
+		lf := ls[r.IntN(len(ls))]
+		for _, cand := range ls {
+			if (cand.text == "" || strings.ContainsAny(cand.text, "eE+.")) && r.Chance(0.5) {
+				lf = cand
+			}
+		}
+		if !utf8.ValidString(lf.text) || lf.path == "" {
+			continue
+		}
+		pat := "^" + regexp.QuoteMeta(lf.text) + "$"
+		other := lf.path
+		for t := 0; t < 8 && other == lf.path; t++ {
+			other = p.path(r)
+		}
+		var qs []*bs.Query
+		if tk := h.TM.fn(lf.text); len(tk) > 0 {
+			w := tk[r.IntN(len(tk))]
+			qs = append(qs, bs.NewQuery().FieldToken(lf.path, w).Build(), bs.NewQuery().Token(w).Build())
+		}
+		bare := cond(lf.path, pat)
+		qs = append(qs, &bs.Query{Regex: &bs.RegexQuery{Expression: &bare}})
+		qs = append(qs, bs.NewQuery().MatchRegex(bs.RegexAnd(bs.FieldRegex(lf.path, pat))).Build())
+		if other != lf.path && other != "" {
+			a, b := bs.FieldRegex(other, pat), bs.FieldRegex(lf.path, pat)
+			if r.Chance(0.5) {
+				a, b = b, a
+			}
+			qs = append(qs, bs.NewQuery().MatchRegex(bs.RegexOr(a, b)).Build())
+			qs = append(qs, bs.NewQuery().Field(lf.path).MatchRegex(bs.RegexOr(a, b)).Build())
+		}
+		for qi, q := range qs {
+			got := idsOf(h.Env.Query(q).Rows)
+			gotFS := idsOf(RunQuery(fsEng, q).Rows)
+			c.r.Case(true, fmt.Sprint("literal", len(h.Ops), id, lf.path, lf.text, qi))
+			c.r.Hit("literal.query")
+			for _, rid := range ids {
+				mv := askMatchTexts(c, h.TM, q, texts[rid], jts[rid])
+				if !mv.valid {
+					c.r.Hit("literal.model-invalid")
+					continue
+				}
+				if rid == id && !mv.match {
+					c.r.Hit("literal.model-says-no")
+				}
+				replay := map[string]any{"ops": h.Ops, "row": string(rowOf[rid]), "query": q, "tokenizer": h.TM.name, "leaf_path": lf.path, "leaf_text": lf.text}
+				if which == "C01" && mv.match && (got[rid] == 0 || gotFS[rid] == 0) {
+					c.r.Add(Finding{Kind: "violation", Check: "e2e-false-negative", Detail: fmt.Sprintf("stored row %d matches a query written from its own stored literal (leaf %q = %q) but is not returned (memory-hosted %d, filesystem-hosted %d)", rid, lf.path, lf.text, got[rid], gotFS[rid]), Replay: replay})
+				}
+				if which == "C02" && !mv.match && (got[rid] > 0 || gotFS[rid] > 0) {
+					c.r.Add(Finding{Kind: "violation", Check: "e2e-false-positive", Detail: fmt.Sprintf("row %d was returned for a query written from the literal of leaf %q = %q of row %d but does not satisfy it", rid, lf.path, lf.text, id), Replay: replay})
+				}
+			}
+		}
 	}
 }
